@@ -974,12 +974,24 @@ static std::string run_batch(const std::vector<std::string> &lines, size_t pos, 
         size_t p = err.find("ERROR: ");
         if (p == std::string::npos)
             p = err.find("runtime error:");
+        if (p == std::string::npos) {
+            // abort() chatter that tells resource exhaustion / toolchain assertions from memory errors:
+            // "gmp: overflow in mpz type", "GNU MP: Cannot allocate memory", libstdc++ "...: Assertion '...' failed."
+            for (const char *pat : {"gmp: overflow", "GNU MP: Cannot", "Assertion '"}) {
+                size_t q = err.find(pat);
+                if (q != std::string::npos) {
+                    p = err.rfind('\n', q);
+                    p = (p == std::string::npos) ? 0 : p + 1;
+                    break;
+                }
+            }
+        }
         if (p != std::string::npos) {
             std::string h = err.substr(p, err.find('\n', p) - p);
             for (char &c : h)
                 if (c == '\t')
                     c = ' ';
-            marker += " " + h.substr(0, 160);
+            marker += " " + (h.size() > 260 ? h.substr(0, 100) + " ... " + h.substr(h.size() - 150) : h);
         }
     }
     if (efd >= 0) {
